@@ -200,7 +200,8 @@ Inductive family :=
 | FRobustPca | FProx | FHalsNnls | FFista | FActiveSet | FAdmm | FSvd | FCpNormalize
 | FPure | FRandom | FLeverage | FSampleKR | FIndexed | FPermute | FFlipSign
 | FRandParafac | FParafac2 | FSvdChain | FTrAls | FTrAlsSampled | FTTCross | FCmtf | FPower | FCpReg | FTuckerReg | FPlsr
-| FMoment | FMetric | FCompress.
+| FMoment | FMetric | FCompress
+| FMaskMul | FMaskMulCast.
 Inductive initk := ISvd | IRandom | IUser.
 Inductive proxk := PNone | PNonneg | PL1 | PL2 | PL2sq | PUnimodal | PNormalize | PSimplex | PNormSparse | PSoftSparse
                  | PSmooth | PMonotone | PHardSparse | PSvt | PProcrustes.
@@ -497,6 +498,23 @@ Definition rand_parafac_prog (c : cfg) : prog :=
      (vE, Div (norm (Op T_ (Op W_ F_))) N_)]
     ([("weights", W_); ("factors", F_)] ++ when (c_errors c) [("errors", Var vE)]).
 
+(* coupled_matrix_tensor_3d_factorization (_cmtf_als.py).  vT = tensor_3d, vY = matrix, vF = the factors of tensor_cp, vX = V.
+   tensor_cp = initialize_cp(tensor_3d, rank, init); factors[0] = initialize_cp(concatenate((unfold(tensor_3d, 0), matrix)), rank, init).factors[0];
+   sweep: V = transpose(lstsq(factors[0], matrix)); factors[ii] = transpose(lstsq(khatri_rao(factors) [concatenated with V], unfolded
+   [concatenated with matrix])); error_new = norm(tensor_3d - cp_to_tensor(tensor_cp))**2 + norm(matrix - cp_to_tensor((None, [factors[0], V])))**2;
+   returns tensor_cp, CPTensor((None, [factors[0], V])) (weights: ones in the context of the factors), rec_errors; optional cp_normalize of both *)
+Definition cmtf_prog (c : cfg) : prog :=
+  mkprog
+    ([(vY, In_)] ++ cp_init_stmts true (plain c) false ++
+     [(vF, Op F_ (match c_init c with ISvd => Into (Op T_ Y_) (Op (Op T_ Y_) (RealOf (Op T_ Y_))) | _ => ctx_of (Op T_ Y_) end));
+      (vX, Op F_ Y_); (vE, Op (norm T_) PyI)])
+    ([(vX, Op F_ Y_);
+      (vF, Op (Op F_ X_) (Op T_ Y_));
+      (vE, Op (Op (norm (Op T_ (Op W_ F_))) PyI) (Op (norm (Op Y_ (Op F_ X_))) PyI))] )
+    (if c_normalize c
+     then [("weights", Op (Op W_ (ctx_of (Op F_ X_))) (norm (Op F_ X_)));   (* cp_normalize: weights * scales *) ("factors", Div (Op F_ X_) (Op (ctx_of (Op F_ X_)) (norm (Op F_ X_)))); ("out2", Var vE)]
+     else [("weights", Op W_ (ctx_of (Op F_ X_))); ("factors", Op F_ X_); ("out2", Var vE)]).
+
 (* parafac2 (_parafac2.py).  vT = the slices, vF = A, B, C (one variable), vC = projections, vS = projected tensor.
    init 'random': random_parafac2(.., **context): projections = qr(tl.tensor(rng, **context)), random_cp(.., **context);
    init 'svd': A = tl.ones(..., **context), B = tl.eye(rank, **context), C = svd_interface(unfolded)[0], weights None
@@ -544,6 +562,27 @@ Definition random_prog (c : cfg) : prog :=
     []
     [("*", W_); ("*", F_); ("*", C_); ("*", Op W_ F_); ("*", Op C_ F_)].
 
+(* cp_to_tensor(cp, mask=) / khatri_rao(matrices, mask=) (alt = false) and cp_lstsq_grad(cp, tensor, mask=) (alt = true):
+   the mask is a plain multiplier.
+     cp_to_tensor (cp_tensor.py): T.sum(khatri_rao([factors[0]*weights] + factors[1:], mask=mask), axis=1); 1-D: vector * reshape(mask)
+     khatri_rao (tenalg/core_tenalg/_khatri_rao.py): res = a*b ...; return res * reshape(mask, (-1, 1))   (einsum variant: the mask is one
+       more einsum operand)
+     cp_lstsq_grad (cp_tensor.py): diff = tensor - cp_to_tensor(cp); diff = diff*mask; grad = -unfolding_dot_khatri_rao(diff, cp, i);
+       loss = 0.5 * T.sum(diff**2); returned as CPTensor((None, grad)), loss
+   cast = false: the code as it is (mask used as passed in); cast = true: the candidate repair
+   `mask = T.tensor(mask, **T.context(factors[0]))` (build/fix_candidates/C18_mask_multiplier.diff). *)
+Definition mask_mul_prog (cast masked alt : bool) : prog :=
+  let kr := Op (Op F_ W_) F_ in
+  let diff0 := Op In_ kr in
+  mkprog ([(vF, In_); (vW, In_)] ++ when masked [(vM, if cast then Into F_ Mask else Mask)])
+         []
+         (if alt
+          then let diff := if masked then Op diff0 M_ else diff0 in
+               let grad := Op diff (Op W_ F_) in
+               (* CPTensor((None, grad_fac)): the missing weights become T.ones(rank, **T.context(grad_fac[0])) *)
+               [("factors", grad); ("weights", ctx_of grad); ("out1", Op PyF (Op diff PyI))]
+          else [("out0", if masked then Op kr M_ else kr)]).
+
 (* shallow skeletons: the outputs are promotions / real parts of the inputs and of allocations in the input's context;
    the internal flow of these entry points is NOT transcribed (see the manifest) *)
 (* the slot name "*" stands for every array of the returned structure *)
@@ -576,6 +615,9 @@ Definition skeleton_v (mc : bool) (c : cfg) : prog :=
   | FIndexed => mkprog [(vT, In_)] [] [("out0", Op T_ T_); ("out1", ints)]               (* congruence_coefficient: (value, permutation) *)
   | FPermute => mkprog [(vT, In_)] [] [("weights", Op T_ T_); ("factors", Op T_ T_); ("out1", ints)]  (* cp_permute_factors: (cp tensors, permutations) *)
   | FFlipSign => mkprog [(vT, In_)] [] [("weights", RealOf T_); ("factors", Op T_ (ctx_of T_))]  (* weights = abs(weights) *)
+  | FCmtf => cmtf_prog c
+  | FMaskMul => mask_mul_prog false (c_mask c) (c_alt c)       (* the code as it is *)
+  | FMaskMulCast => mask_mul_prog true (c_mask c) (c_alt c)    (* candidate repair, not (yet) the code *)
   | _ => pure_prog c
   end.
 (* the variant of the code the correspondence is run against: since the repair 45ef7df the four masked entry points
@@ -640,6 +682,36 @@ Definition mask_dts := [B; I64; F32; F64; C64; C128].
 Definition ext_ok_any (p : prog) : bool := forallb (fun t => forallb (fun m => prog_ok2 (mkenv t m) p) mask_dts) ctxs.
 Definition ext_ok_same (p : prog) : bool := forallb (fun t => prog_ok2 (mkenv t t) p) ctxs.
 
+(* "complex stays complex" for extracted programs: the tolerant check with a third bit list X = variables known to hold EXACTLY tau
+   (RealOf never yields an exact value; a promotion / division of in-class operands is exact as soon as one operand is).
+   `want` = the positions (in p_outs) of the outputs that have to be exact. *)
+Fixpoint exact_expr2 (en : env) (X : list bool) (e : expr) : bool :=
+  match e with
+  | Leaf l => dt_eqb (leaf_dt en l) (tau en)
+  | Var x => getb X x
+  | Op a b | Div a b => exact_expr2 en X a || exact_expr2 en X b
+  | ToFloat a => exact_expr2 en X a
+  | RealOf _ => false
+  | Into tg _ => exact_expr2 en X tg
+  end.
+Fixpoint exact_block2 (en : env) (D X : list bool) (b : list stmt) : list bool * list bool :=
+  match b with
+  | [] => (D, X)
+  | (x, e) :: r => let o := ok_expr2 en D e in
+                   exact_block2 en (setb D x o) (setb X x (o && exact_expr2 en X e)) r
+  end.
+Definition all_exact2 (en : env) (p : prog) (want : list nat) : bool :=
+  let '(D1, X1) := exact_block2 en [] [] (p_init p) in
+  let '(D2, X2) := exact_block2 en D1 X1 (p_body p) in
+  subb D1 D2 && subb X1 X2 &&
+  forallb (fun k => match nth_error (p_outs p) k with
+                    | Some o => ok_expr2 en D1 (snd o) && exact_expr2 en X1 (snd o)
+                    | None => false
+                    end) want.
+Definition ext_exact_any (p : prog) (want : list nat) : bool :=
+  forallb (fun t => forallb (fun m => all_exact2 (mkenv t m) p want) mask_dts) ctxs.
+Definition ext_exact_same (p : prog) (want : list nat) : bool := forallb (fun t => all_exact2 (mkenv t t) p want) ctxs.
+
 (* ------------------------------------------------------------------ "complex stays complex": outputs that are EXACTLY tau
    prog_ok / strongP allow the real type of the same precision (norms, errors, singular values are real for complex data).  The
    stricter per-output check below tracks the variables known to hold exactly tau: RealOf never yields an exact value, a
@@ -677,6 +749,6 @@ Definition nonneg_family (f : family) : bool := match f with FNNParafac | FNNPar
 Definition real_by_design (c : cfg) (s : string) : bool :=
   String.eqb s "errors"
   || (String.eqb s "weights" && (c_normalize c || match c_fam c with FFlipSign | FCpNormalize => true | _ => false end))
-  || (match c_fam c with FSvd => String.eqb s "out1" || c_alt c | _ => false end)
+  || (match c_fam c with FSvd => String.eqb s "out1" || c_alt c | FCmtf => String.eqb s "out2" | _ => false end)
   || nonneg_family (c_fam c)
   || (match c_fam c with FRandom => c_warm c | _ => false end).
